@@ -17,6 +17,7 @@ import (
 	"sort"
 	"strings"
 
+	"com.tuntun.rangers/node/src/common"
 	"com.tuntun.rangers/node/src/storage/account"
 	"com.tuntun.rangers/node/src/vm"
 	"github.com/holiman/uint256"
@@ -268,6 +269,32 @@ type obs struct {
 var state *account.AccountDB
 var stateUses int
 
+// environment of the top-level call: what the environment opcodes read
+var (
+	curValue    = new(big.Int)           // CALLVALUE of the next run
+	baseBalance = big.NewInt(0x5eed1234) // balance of the code account before the call's value arrives
+)
+
+func addrZ(b []byte) *big.Int { return new(big.Int).SetBytes(b) }
+
+// envWords: ADDRESS ORIGIN CALLER CALLVALUE GASPRICE COINBASE TIMESTAMP NUMBER DIFFICULTY GASLIMIT CHAINID SELFBALANCE
+func envWords(gas uint64) [12]*big.Int {
+	return [12]*big.Int{addrZ(vmx.CodeAddr.Bytes()), addrZ(vmx.Origin.Bytes()), addrZ(vmx.Origin.Bytes()), new(big.Int).Set(curValue),
+		big.NewInt(1), addrZ(vmx.Coinbase.Bytes()), big.NewInt(1700000000), big.NewInt(vmx.RunHeight), big.NewInt(123),
+		new(big.Int).SetUint64(gas), common.GetChainId(vmx.RunHeight), new(big.Int).Add(baseBalance, curValue)}
+}
+
+var envOpcodes = []byte{0x30, 0x32, 0x33, 0x34, 0x3a, 0x41, 0x42, 0x43, 0x44, 0x45, 0x46, 0x47}
+
+func envCoq(gas uint64) string {
+	w := envWords(gas)
+	parts := make([]string, 12)
+	for i, v := range w {
+		parts[i] = zs(v)
+	}
+	return "(mkEnv " + strings.Join(parts, " ") + ")"
+}
+
 func runEVM(code, input []byte, gas uint64) (o obs) {
 	if state == nil || stateUses > 500 {
 		state = vmx.NewState()
@@ -278,6 +305,7 @@ func runEVM(code, input []byte, gas uint64) (o obs) {
 	}
 	stateUses++
 	state.SetCode(vmx.CodeAddr, code)
+	state.SetBalance(vmx.CodeAddr, baseBalance)
 	evm := vmx.NewEVM(state, state, gas)
 	defer func() {
 		if p := recover(); p != nil {
@@ -285,7 +313,7 @@ func runEVM(code, input []byte, gas uint64) (o obs) {
 			state = nil
 		}
 	}()
-	ret, left, _, err := evm.Call(vm.AccountRef(vmx.Origin), vmx.CodeAddr, input, gas, new(big.Int))
+	ret, left, _, err := evm.Call(vm.AccountRef(vmx.Origin), vmx.CodeAddr, input, gas, new(big.Int).Set(curValue))
 	o.ret = append([]byte{}, ret...)
 	o.left = left
 	switch {
@@ -343,6 +371,8 @@ var refMemLen int
 
 const refMemCap = 8 << 20 // no run in this harness can pay for more memory than this
 const refMemGasy = 16 << 10 // beyond this the memory fee may exhaust the gas of a run
+
+var refEnv [12]*big.Int
 
 func refRun(code, input []byte, defined *[256]bool, maxSteps int) (out refOut) {
 	defer func() { out.bigmem = out.bigmem || gasyFlag; gasyFlag = false; out.memlen = refMemLen }()
@@ -430,6 +460,32 @@ func refRun(code, input []byte, defined *[256]bool, maxSteps int) (out refOut) {
 			}
 			off := pop()
 			push(new(big.Int).SetBytes(getData(input, off, big.NewInt(32))))
+		case op == 0x30 || op == 0x32 || op == 0x33 || op == 0x34 || op == 0x3a || (op >= 0x41 && op <= 0x47):
+			if e := need(0, 1); e != "" {
+				return fail(e)
+			}
+			for i, eo := range envOpcodes {
+				if eo == op {
+					push(new(big.Int).Set(refEnv[i]))
+				}
+			}
+		case op == 0x3d: // RETURNDATASIZE: no call has been made
+			if e := need(0, 1); e != "" {
+				return fail(e)
+			}
+			push(big.NewInt(0))
+		case op == 0x3e: // RETURNDATACOPY from an empty buffer
+			if e := need(3, 0); e != "" {
+				return fail(e)
+			}
+			mo, so, n := pop(), pop(), pop()
+			if add(so, n).Sign() > 0 {
+				// the implementation sizes (and charges for) the destination range before it looks at the source
+				if ok, bm := expand(mo, n); !ok {
+					return refOut{kind: "fail:oog", bigmem: bm, steps: steps}
+				}
+				return fail("fail:retdata-oob")
+			}
 		case op == 0x36:
 			if e := need(0, 1); e != "" {
 				return fail(e)
@@ -795,7 +851,11 @@ func (g *gen) instr(floor, cap int) {
 			}
 		case k == 17:
 			if g.h < cap {
-				g.emit([]byte{0x58, 0x59, 0x36, 0x38}[r.Intn(4)])
+				if r.Intn(3) == 0 {
+					g.emit(append(append([]byte{}, envOpcodes...), 0x3d)[r.Intn(len(envOpcodes)+1)])
+				} else {
+					g.emit([]byte{0x58, 0x59, 0x36, 0x38}[r.Intn(4)])
+				}
 				g.h++
 				return
 			}
@@ -814,6 +874,14 @@ func (g *gen) instr(floor, cap int) {
 				op := []byte{0x37, 0x39, 0x5e}[r.Intn(3)]
 				if op == 0x5e && !g.mcopy {
 					op = 0x39
+				}
+				if r.Intn(12) == 0 { // RETURNDATACOPY of nothing from an empty buffer: the only non-faulting form here
+					g.pushV(big.NewInt(0))
+					g.pushV(big.NewInt(0))
+					g.pushV(g.smallOff())
+					g.emit(0x3e)
+					g.h -= 3
+					return
 				}
 				g.pushV(g.smallLen())
 				if r.Intn(10) == 0 {
@@ -959,7 +1027,13 @@ func genProgram(r *hx.Rng, f vmx.Fork) []byte {
 func genFaulty(r *hx.Rng, f vmx.Fork, undefined []byte) []byte {
 	g := &gen{r: r, mcopy: f.P022, push0: f.P022}
 	g.block(2+r.Intn(10), 0, 10)
-	switch r.Intn(9) {
+	switch r.Intn(10) {
+	case 9: // RETURNDATACOPY beyond the (empty) return buffer
+		g.pushV([]*big.Int{big.NewInt(1), big.NewInt(32), randWord(r)}[r.Intn(3)])
+		g.pushV([]*big.Int{big.NewInt(0), big.NewInt(1), randWord(r)}[r.Intn(3)])
+		g.pushV(g.smallOff())
+		g.emit(0x3e)
+		g.h -= 3
 	case 0: // undefined opcode
 		g.emit(undefined[r.Intn(len(undefined))])
 	case 1: // underflow
@@ -1094,7 +1168,8 @@ func init() {
 	for _, o := range ops {
 		modelledOps = append(modelledOps, o.code)
 	}
-	modelledOps = append(modelledOps, 0x00, 0x35, 0x36, 0x37, 0x38, 0x39, 0x50, 0x51, 0x52, 0x53, 0x56, 0x57, 0x58, 0x59, 0x5a, 0x5b, 0xf3, 0xfd)
+	modelledOps = append(modelledOps, envOpcodes...)
+	modelledOps = append(modelledOps, 0x20, 0x3d, 0x3e, 0x00, 0x35, 0x36, 0x37, 0x38, 0x39, 0x50, 0x51, 0x52, 0x53, 0x56, 0x57, 0x58, 0x59, 0x5a, 0x5b, 0xf3, 0xfd)
 	for b := 0x60; b <= 0x9f; b++ {
 		modelledOps = append(modelledOps, byte(b))
 	}
@@ -1176,6 +1251,9 @@ func main() {
 		return thorough || (gridSel+int(a.Seed))%3 == 0
 	}
 	allOn := vmx.Fork{P014: true, P022: true, P026: true}
+	for _, f := range vmx.AllForks { // the live jump table of every configuration agrees with delta/alpha of the Yellow-Paper machine
+		addCase(f, "CTable", map[string]interface{}{"kind": "table", "fork": f.String()})
+	}
 	pickFork := func() vmx.Fork {
 		if rng.Intn(2) == 0 {
 			return allOn
@@ -1349,9 +1427,10 @@ func main() {
 	progCase := func(f vmx.Fork, code, input []byte, gas uint64, kind string, toModel bool) obs {
 		vmx.SetFork(f)
 		ob := runEVM(code, input, gas)
-		in := map[string]interface{}{"fork": f.String(), "code": hex.EncodeToString(code), "input": hex.EncodeToString(input), "gas": gas, "kind": kind,
+		refEnv = envWords(gas)
+		in := map[string]interface{}{"fork": f.String(), "code": hex.EncodeToString(code), "input": hex.EncodeToString(input), "gas": gas, "kind": kind, "value": curValue.String(),
 			"observed": ob.class, "ret": hex.EncodeToString(ob.ret), "gas_left": ob.left}
-		id := fmt.Sprintf("prog %d %x %x %d", f.Index(), code, input, gas)
+		id := fmt.Sprintf("prog %d %x %x %d %s", f.Index(), code, input, gas, curValue.String())
 		ref := refRun(code, input, &defined[f.Index()], 60000)
 		nontrivial := ref.steps >= 4
 		res.Count("prog:"+kind+":"+ob.class, id, nontrivial)
@@ -1384,8 +1463,8 @@ func main() {
 			}
 		}
 		modelOK := ref.memlen <= 1<<16 && (ref.kind != "skip" || ref.skipGas || gas <= 39000)
-		if toModel && len(code) < 1400 && modelOK && !sha3Emitted {
-			addCase(f, fmt.Sprintf("CProg %s %s %d (%s)", hx.CoqHex(code), hx.CoqHex(input), gas, ob.coq()), in)
+		if toModel && len(code) < 1400 && modelOK {
+			addCase(f, fmt.Sprintf("CProg %s %s %d %s (%s)", hx.CoqHex(code), hx.CoqHex(input), gas, envCoq(gas), ob.coq()), in)
 		}
 		if kind == "structured" && ob.class == "ok" && len(ob.ret) > dumpBase {
 			res.Sample(in)
@@ -1396,6 +1475,14 @@ func main() {
 	for i := 0; i < nProg; i++ {
 		f := pickFork()
 		input := rng.Bytes([]int{0, 4, 31, 32, 33, 68, 100}[rng.Intn(7)])
+		switch rng.Intn(4) {
+		case 0:
+			curValue = big.NewInt(int64(1 + rng.Intn(1000)))
+		case 1:
+			curValue = new(big.Int).Rsh(new(big.Int).SetBytes(rng.Bytes(11)), uint(rng.Intn(40)))
+		default:
+			curValue = new(big.Int)
+		}
 		var code []byte
 		kind := "structured"
 		sha3Emitted = false
@@ -1442,6 +1529,7 @@ func main() {
 	// =========================================================================================
 	// (iv) jump destination analysis
 	sha3Emitted = false
+	curValue = new(big.Int)
 	nJump := a.N / 4
 	for i := 0; i < nJump; i++ {
 		var code []byte
